@@ -202,6 +202,11 @@ where
         self.link_ops(&ops)?;
         let mut vm = VM::with_pointer(self.strict, ops, &self.working_dir);
         if let Some(path) = path {
+            // The file being built counts as "being imported" for cycle detection.
+            let own: Rc<str> = crate::path::normalize(path.clone())
+                .to_string_lossy()
+                .into();
+            vm = vm.with_import_stack(vec![own]);
             vm.set_path(path);
         }
         if self.validate_mode {
